@@ -43,7 +43,7 @@ typedef enum {
 	METH_DECLINECOUNTER,
 } ical_meth_t;
 
-#line 26 "evmeth-gp.erf"
+#line 25 "evmeth-gp.erf"
 struct ical_meth_cell_s {
 	const char *methstr;
 	ical_meth_t meth;
@@ -74,7 +74,20 @@ __evical_meth_hash (register const char *str, register size_t len)
       23, 23, 23, 23, 23, 23, 23, 23, 23, 23,
       23, 23, 23, 23, 23, 23, 23, 23, 23, 23,
       23, 23, 23, 23, 23, 23, 23, 23, 23, 23,
-      23, 23, 23, 23, 23, 23, 23, 23
+      23, 23, 23, 23, 23, 23, 23, 23, 23, 23,
+      23, 23, 23, 23, 23, 23, 23, 23, 23, 23,
+      23, 23, 23, 23, 23, 23, 23, 23, 23, 23,
+      23, 23, 23, 23, 23, 23, 23, 23, 23, 23,
+      23, 23, 23, 23, 23, 23, 23, 23, 23, 23,
+      23, 23, 23, 23, 23, 23, 23, 23, 23, 23,
+      23, 23, 23, 23, 23, 23, 23, 23, 23, 23,
+      23, 23, 23, 23, 23, 23, 23, 23, 23, 23,
+      23, 23, 23, 23, 23, 23, 23, 23, 23, 23,
+      23, 23, 23, 23, 23, 23, 23, 23, 23, 23,
+      23, 23, 23, 23, 23, 23, 23, 23, 23, 23,
+      23, 23, 23, 23, 23, 23, 23, 23, 23, 23,
+      23, 23, 23, 23, 23, 23, 23, 23, 23, 23,
+      23, 23, 23, 23, 23, 23
     };
   return len + asso_values[(unsigned char)str[2]];
 }
@@ -93,21 +106,21 @@ __evical_meth (register const char *str, register size_t len)
 
   static const struct ical_meth_cell_s wordlist[] =
     {
-#line 35 "evmeth-gp.erf"
-      {"ADD", METH_ADD},
 #line 34 "evmeth-gp.erf"
-      {"REPLY", METH_REPLY},
-#line 36 "evmeth-gp.erf"
-      {"CANCEL", METH_CANCEL},
-#line 38 "evmeth-gp.erf"
-      {"COUNTER", METH_COUNTER},
+      {"ADD", METH_ADD},
 #line 33 "evmeth-gp.erf"
-      {"REQUEST", METH_REQUEST},
-#line 39 "evmeth-gp.erf"
-      {"DECLINECOUNTER", METH_DECLINECOUNTER},
+      {"REPLY", METH_REPLY},
+#line 35 "evmeth-gp.erf"
+      {"CANCEL", METH_CANCEL},
 #line 37 "evmeth-gp.erf"
-      {"REFRESH", METH_REFRESH},
+      {"COUNTER", METH_COUNTER},
 #line 32 "evmeth-gp.erf"
+      {"REQUEST", METH_REQUEST},
+#line 38 "evmeth-gp.erf"
+      {"DECLINECOUNTER", METH_DECLINECOUNTER},
+#line 36 "evmeth-gp.erf"
+      {"REFRESH", METH_REFRESH},
+#line 31 "evmeth-gp.erf"
       {"PUBLISH", METH_PUBLISH}
     };
 
